@@ -108,7 +108,7 @@ fn history(c: &Case, hook_target: Option<u16>) -> (u128, Vec<(String, u16)>, Res
         };
         for _ in 0..c.pre_age {
             match bench.run(conn.publish(Publication::bytes("t", &big[..]).qos(QoS::AtLeastOnce)), id) {
-                Some(Err(e)) if matches!(Res::from_pub(&e), Res::BufferTooSmall | Res::Payload) => {}
+                Some(Err(e)) if matches!(Res::from_pub(&e), Res::BufferTooSmall | Res::Payload | Res::NotReady) => {}
                 _ => panic!("machinery: pre-ageing publish was not refused"),
             }
         }
@@ -130,7 +130,7 @@ fn history(c: &Case, hook_target: Option<u16>) -> (u128, Vec<(String, u16)>, Res
             None => {
                 for _ in 0..c.refused {
                     match bench.run(conn.publish(Publication::bytes("t", &big[..]).qos(QoS::AtLeastOnce)), id) {
-                        Some(Err(e)) if matches!(Res::from_pub(&e), Res::BufferTooSmall | Res::Payload) => {}
+                        Some(Err(e)) if matches!(Res::from_pub(&e), Res::BufferTooSmall | Res::Payload | Res::NotReady) => {}
                         other => panic!(
                             "machinery: ageing publish was not refused: {:?}",
                             other.map(|r| r.map(|_| ()).map_err(|e| Res::from_pub(&e)))
